@@ -94,6 +94,40 @@ pub fn scale_down(xs: &[&str], s: u32) -> Vec<String> {
         .collect()
 }
 
+/// decimal digits of 2^s
+pub fn pow2_str(s: u32) -> String {
+    let mut d: Vec<u8> = vec![1];      // little-endian decimal digits
+    for _ in 0..s {
+        let mut carry = 0u8;
+        for x in d.iter_mut() {
+            let v = *x * 2 + carry;
+            *x = v % 10;
+            carry = v / 10;
+        }
+        if carry > 0 {
+            d.push(carry);
+        }
+    }
+    d.iter().rev().map(|x| (b'0' + x) as char).collect()
+}
+
+/// scale by 2^-s for any s (tokens with small integer denominators a power of two): subnormal range
+pub fn scale_down_big(xs: &[&str], s: u32) -> Vec<String> {
+    xs.iter()
+        .map(|t| {
+            if *t == "_" || *t == "0" {
+                t.to_string()
+            } else {
+                let (p, q) = match t.split_once('/') {
+                    Some((p, q)) => (p.to_string(), q.parse::<u32>().unwrap_or(1)),
+                    None => (t.to_string(), 1),
+                };
+                format!("{}/{}", p, pow2_str(s + q.trailing_zeros()))
+            }
+        })
+        .collect()
+}
+
 /// for every `every`-th request line that carries `xs=` (and possibly `ys=`) append a copy whose
 /// series are scaled by 2^-s, s rotating over `shifts`: the same statistics at a scale where the
 /// variance is close to (but well above) the EPS floor, so that a mis-scaled or mis-combined
@@ -107,13 +141,17 @@ pub fn add_scaled(lines: &mut Vec<String>, every: usize, shifts: &[u32], keys: &
             continue;
         }
         let s = shifts[(i / every.max(1)) % shifts.len()];
+        let mut changed = false;
         for k in keys {
             if r.has(k) {
                 let v: Vec<String> = scale_down(&r.list(k), s);
                 r.set(k, join(&v));
+                changed = true;
             }
         }
-        extra.push(r.line());
+        if changed {
+            extra.push(r.line());
+        }
     }
     lines.extend(extra);
 }
